@@ -135,7 +135,8 @@ package internal
 //@   ensures  trust: result1 == nil && result0 != nil ==> TrustFor(result0, EncOf(config))
 //@   ensures  shared: !(TlsCA(config) == "" && TlsCAFile(config) == "" && TlsSkip(config) == nil) && mapHas(old(p.configs), PoolID(EncOf(config))) ==> result1 == nil && result0 == old(p.configs)[PoolID(EncOf(config))]
 //@   ensures  pooled: result1 == nil && result0 != nil ==> mapHas(p.configs, PoolID(EncOf(config))) && p.configs[PoolID(EncOf(config))] == result0
-//@   ensures  pool: TlsPoolInv(p)
+//@   ensures  pool: TlsPoolSrc(p)
+//@   ensures  pool_distinct: TlsPoolDistinct(p)
 //@   ensures  unlocked: !held(addr(p.mu))
 
 //@ func (*tlsConfigPool).updateCA
